@@ -71,6 +71,13 @@ func runCase(r *common.Rng, id int, c basmdump.Case, steps int, stims map[int][]
 		if len(d.Data.Vars) > 0 {
 			hasData = true
 		}
+		for _, op := range d.Op {
+			if op.Op_get_name() == "div" {
+				// `div` by zero panics in Div.Simulate; inside a goroutine of bondmachine.VM nothing can recover it (the
+				// per-processor simulation above is guarded): such machines are compared processor by processor only
+				hasData = true
+			}
+		}
 	}
 	// machines with data sections: the reference has no whole-machine interpreter for them (each processor is compared on
 	// its own above), and a wrong address makes bondmachine.VM panic inside a goroutine, which nothing can recover
